@@ -164,12 +164,14 @@ class Contract:
             return denom_variants(self, tier)
         if getattr(self, 'div_consts', None):
             out = []
-            for v, reqs in self.div_consts:
+            for v, reqs, lanes, tag in self.div_consts:
                 if tier == 'quick' and v not in self.div_quick:
                     continue
                 c = copy.copy(self)
                 c.requires = list(self.requires) + reqs
-                c.part = 'd=%d' % v
+                # post-conditions of the lanes whose divisor is pinned; the other lanes' divisors are unconstrained (zero included)
+                c.ensures = [(l, e) for l, e in self.ensures if not re.search(r'lane (\d+)$', l) or int(re.search(r'lane (\d+)$', l).group(1)) in lanes]
+                c.part = 'd=%d %s' % (v, tag)
                 out.append(c)
             return out
         lane = [(l, e) for l, e in self.ensures if re.search(r'lane \d+$', l)]
@@ -640,19 +642,30 @@ def div_lattice(t):
     return sorted(set(v & ((1 << b) - 1) for v in vals))
 
 
-def div_mode(k, t, ylane):
+def div_mode(k, t, ylane, xlane=None):
     """width-1 vectors route to the hardware divider: uninterpreted-division mode (full domain, routing proof).
     SIMD emulations (shift-subtract, FP division) are beyond SAT for symbolic divisors: PARTIAL DOMAIN -- all dividends,
     divisors of every lane drawn from a fixed lattice -- reported as partial, never as proved."""
     if t.W == 1 or t.bits == 64:
         # 64-bit SIMD lanes are divided one by one with the scalar divider in every x86 branch: same routing proof, and
-        # with no pre-condition on the other lanes a zero divisor anywhere reaches the "division by zero" check
+        # with no pre-condition on the other lanes' divisors a zero divisor anywhere reaches the "division by zero" check.
+        # MIN / -1 is different: the property excludes such a lane from the exactness claim and says nothing about it not
+        # trapping (it is undefined for the C++ operator as well), so for signed lanes no lane holds MIN / -1.
         k.defines = ['AVM_DIV_UF']
+        if t.W > 1 and t.signed:
+            k.requires = list(k.requires) + ['!(%s == %dull && %s == %dull)' % (xlane(i), 1 << (t.bits - 1), ylane(i), (1 << t.bits) - 1) for i in range(t.W)]
         return k
     lat = div_lattice(t)
-    k.div_consts = [(v, ['%s == %dull' % (ylane(i), v) for i in range(t.W)]) for v in lat]
+    # "a zero divisor in one lane neither traps nor changes the result of any other lane": the divisor is pinned in every
+    # other lane only (even lanes, then odd lanes); the remaining lanes' divisors are unconstrained -- zero included -- and
+    # nothing is claimed for them in that obligation
+    k.div_consts = []
+    for v in lat:
+        for par, tag in ((0, 'even lanes'), (1, 'odd lanes')):
+            lanes = [i for i in range(t.W) if i % 2 == par]
+            k.div_consts.append((v, ['%s == %dull' % (ylane(i), v) for i in lanes], set(lanes), tag))
     k.div_quick = {3, (1 << (t.bits - 1)) + 1, (1 << t.bits) - 1}
-    k.partial = 'one obligation per divisor d in the lattice {%s} (mod 2^%d), every lane dividing by d; all dividends' % (', '.join(str(v) for v in lat), t.bits)
+    k.partial = 'two obligations per divisor d in the lattice {%s} (mod 2^%d): the even (odd) lanes divide by d while the divisors of the odd (even) lanes are unconstrained, zero included; all dividends' % (', '.join(str(v) for v in lat), t.bits)
     return k
 
 
@@ -672,7 +685,7 @@ def f_div(c):
             ens.append(('div quot lane %d' % i, '!%s || %s' % (g, eq_lane(t, '(%s).quot' % RV, i, '%s(%s, %s, %d)' % (dq, t.lane(x, i), t.lane(y, i), t.bits)))))
             ens.append(('div rem lane %d' % i, '!%s || %s' % (g, eq_lane(t, '(%s).rem' % RV, i, '%s(%s, %s, %d)' % (dr, t.lane(x, i), t.lane(y, i), t.bits)))))
         req = [div_guard(t, x, y, 0)] if t.W == 1 else []
-        return div_mode(Contract('int_div', ['C05'], requires=req, ensures=ens, cxx='avel::div({0}, {1})', flags=['div']), t, lambda i: t.lane(y, i))
+        return div_mode(Contract('int_div', ['C05'], requires=req, ensures=ens, cxx='avel::div({0}, {1})', flags=['div']), t, lambda i: t.lane(y, i), lambda i: t.lane(x, i))
     if c.kind == 'method' and c.name in ('operator/=', 'operator%=') and c.OT and c.OT.kind == 'vec' and c.OT.isint and len(c.P) == 1 and c.PT[0].ct == c.OT.ct:
         t = c.OT
         this = '(*this)'
@@ -682,7 +695,7 @@ def f_div(c):
         return div_mode(compound_method(c, t, lambda i: '%s(%s, %s, %d)' % (sp, OLD(t.lane(this, i)), t.lane(c.a(0), i), t.bits), ['C05'], 'int_' + c.name,
                                '({this} %s {0})' % c.name[8:], req=req,
                                per_lane_guard=lambda i: 'spec_div_defined(%s, %s, %d, %d)' % (OLD(t.lane(this, i)), t.lane(c.a(0), i), t.bits, t.signed),
-                               flags=['div']), t, lambda i: t.lane(c.a(0), i))
+                               flags=['div']), t, lambda i: t.lane(c.a(0), i), lambda i: t.lane(this, i))
     if c.kind == 'function' and c.name in ('operator/', 'operator%') and len(c.P) == 2:
         t = same_vec_params(c, 2)
         if not t or t.kind != 'vec' or not t.isint or c.RT.ct != t.ct:
@@ -691,7 +704,7 @@ def f_div(c):
         sp = ('spec_sdiv' if quot else 'spec_srem') if t.signed else ('spec_udiv' if quot else 'spec_urem')
         req = [div_guard(t, c.a(0), c.a(1), 0)] if t.W == 1 else []
         return div_mode(lanewise_fn(c, t, lambda i: '%s(%s, %s, %d)' % (sp, t.lane(c.a(0), i), t.lane(c.a(1), i), t.bits), ['C05'], 'int_' + c.name,
-                           '({0} %s {1})' % c.name[8:], req=req, per_lane_guard=lambda i: div_guard(t, c.a(0), c.a(1), i), flags=['div']), t, lambda i: t.lane(c.a(1), i))
+                           '({0} %s {1})' % c.name[8:], req=req, per_lane_guard=lambda i: div_guard(t, c.a(0), c.a(1), i), flags=['div']), t, lambda i: t.lane(c.a(1), i), lambda i: t.lane(c.a(0), i))
     return None
 
 
